@@ -100,6 +100,8 @@ def reaching_defs(func, name, at_stmt, defs):
                 for d in all_defs:
                     if d not in collected and (d[2] is parent or any(x is d[2] for x in ast.walk(parent))):
                         collected.append(d)
+                if isinstance(parent, ast.For) and any(isinstance(x, ast.Name) and x.id == name for x in ast.walk(parent.target)):
+                    return collected          # inside the body the loop variable was (re)bound by this loop: nothing earlier reaches
         cur = parent
     for d in all_defs:
         if d[0] == "loop" and d not in collected and any(x is at_stmt for x in ast.walk(d[2])):
